@@ -122,7 +122,10 @@ pub fn run_case(case: &Sx) -> (Sx, Sx) {
         let seed = l[7].clone();
         let mut obs = vec![sym("obs")];
         let mut exp = vec![sym("c03"), lst(std::iter::once(sym("p")).chain(PS.iter().map(|p| num(*p))).collect()), seed, l[5].clone()];
-        let mut h = run_history(&c, |_, _| {});
+        // (subst 1) as 9th element: the e-graph uses ExtractionSubst for b[x := t] instead of the default SynExprSubst
+        let extraction_subst = matches!(l.get(8), Some(Sx::Lst(v)) if v.len() == 2 && v[0].as_sym() == "subst" && v[1].as_num() == 1);
+        let eg0: EGraph<LV> = if extraction_subst { EGraph::with_subst_method::<ExtractionSubst>(()) } else { EGraph::default() };
+        let mut h = run_history_in(&c, eg0, |_, _| {});
         if let Some((_oi, kind, _loc)) = &h.err {
             obs.push(lst(vec![sym("res"), sym("err"), sym(kind)]));
             exp.push(lst(vec![sym("err"), sym(kind)]));
@@ -324,9 +327,10 @@ pub fn gen(a: &Args) -> Vec<String> {
         }
         let k = rng.range(1, 4);
         let seed = rng.below(1 << 20);
+        let subst = rng.below(2);
         let mut t = vec![sym("terms")]; t.extend(terms);
         let mut o = vec![sym("ops")]; o.extend(ops);
-        cases.push(lst(vec![sym("eg3"), flags(), lst(t), lst(o), sym(&motif), lst(rules), lst(vec![sym("iters"), num(k)]), lst(vec![sym("seed"), num(seed)])]).to_string());
+        cases.push(lst(vec![sym("eg3"), flags(), lst(t), lst(o), sym(&motif), lst(rules), lst(vec![sym("iters"), num(k)]), lst(vec![sym("seed"), num(seed)]), lst(vec![sym("subst"), num(subst)])]).to_string());
     }
     cases
 }
